@@ -24,6 +24,10 @@ PROPS = {
                 "every register of random operation programs -> decode(encode(E)) must succeed, be == E and denote the model "
                 "element; backward: produced encodings, structured near-misses (s+kq aliases, q-s, all 256 bit flips, top bits, "
                 "boundaries) and random strings -> any accepted string must re-encode to itself and denote decodeSpec. "
+                "Also: a string decodeSpec accepts but the library rejects is put through the forward check; E and -E must "
+                "encode differently and decode to unequal values; stream decoders through readers with partial progress; "
+                "near-valid rejects (non-square discriminant, candidate on the curve), special field values, fold-collision "
+                "aliases; object-lifecycle programs (round trip of deserialised / converted / in-place mutated objects). "
                 "Trivial: identity representatives (forward) / strings the spec rejects (backward)." + DISTINCT,
         "text": "Reference-model round-trip monitor over executions of the real encoder/decoder in both builds; elements are "
                 "products of arithmetic and arbitrary representatives, not only fresh decodes. Sampled, not exhaustive over 2^256.",
@@ -37,6 +41,8 @@ PROPS = {
         "rule": "strings: for ~100 valid s their s+q / s+2q aliases, q-s, all 256 single-bit flips, top-three-bit variants, "
                 "s+1, s+2; boundary values q-1, q, q+1, 2^253, 2^255, 2^256-1, 1; random and random-masked strings; slices of "
                 "length 0..=80 (+100,128,200,1000). Every entry point (11 in the arkworks build incl. stream deserialisers of "
+                "[further string classes: lengths aliasing 32 under truncating casts (32+256k, 32+2^k), textual renderings "
+                "(hex / decimal as bytes), near-valid rejects, field-zoo values, fold-collision aliases s+q of valid s] "
                 "Element/AffinePoint/Encoding, 7 in the minimal build) must answer exactly as decodeSpec o canonical parse. "
                 "A case = one string; none is trivial." + DISTINCT,
         "text": "Specification-decoder monitor: accept/reject verdict, error kind and decoded element of all decoding entry points "
@@ -54,6 +60,9 @@ PROPS = {
                 "(vartime_compress, field form, From impls, CanonicalSerialize of Element/AffinePoint/Encoding, Debug/Display hex, "
                 "ToConstraintField): bytes must equal encodeSpec(model element), top three bits clear; all pairs inside batches: "
                 "== <=> bytes equal <=> model equal. Trivial: identity representatives." + DISTINCT,
+        "rule_more": "plus uncompressed / alternate-format ({:#?}) encoders (a panic of an unimplemented mode is counted, bytes must be canonical), "
+                     "and object-lifecycle programs: persistent Element / AffinePoint objects from 16 constructors, mutated in place, "
+                     "every encoder against encodeSpec of the object's actual coordinates, == objects must encode equally.",
         "text": "Reference-encoder monitor over every representation reachable by arithmetic or constructed through the hook.",
         "note": "trusted: BigUint encodeSpec (self-tested), coordinate hook.",
     },
@@ -69,6 +78,8 @@ PROPS = {
                 "algebraic laws through the library's own ==, and random straight-line programs mixing all forms; "
                 "each result is judged against the model group law (structural invariant via coordinate hook, "
                 "denotation up to the coset, and vartime_compress bytes == encodeSpec). A case is the tuple "
+                "[also: sums of length 31..1025, nested sums (re-entrancy), planted equal / opposite / other-member neighbours, "
+                "object-lifecycle programs with in-place forms on persistent objects, monitor profile in both tiers] "
                 "(form, model operands, projective scalings); trivial = all operands are identity representatives." + DISTINCT,
         "text": "Reference-model monitor over executions of the real operator impls: every catalogued form of add/sub/neg/double/sum "
                 "in both builds is run on an operand-class matrix (identity, 2-torsion representative, P with -P, P with itself, both "
@@ -88,6 +99,8 @@ PROPS = {
                 "element classes (G, P, other coset member, identities, rescaled) x every Mul/MulAssign form, mul_bigint, "
                 "scalar_mul(_vartime) with extra leading-zero limbs and the empty slice; r*P = identity for every zoo element; "
                 "additivity/multiplicativity laws; MSM forms at sizes 0..=100 (thorough: 1000). Trivial: identity operand or k = 0." + DISTINCT,
+        "rule_more": "scalar zoo also holds recoding runs (window digits 2^(w-1)-1, 2^(w-1), 2^w-1 for w <= 8 in every limb) and ladder "
+                     "collisions ((k mod 2^j) = +-2^j mod r; prefixes c*r+delta), MSM through lazy / nested iterators.",
         "text": "Reference-model monitor: the k-fold sum is computed independently by the integer k, so the group order is checked, "
                 "not assumed.",
         "note": "trusted: BigUint model (projective double-and-add validated against the affine law in the self-test).",
@@ -104,6 +117,9 @@ PROPS = {
                 "constants, Default, zero(), generator(); deserialisers, into_affine/into_group, normalize_batch, "
                 "batch_convert_to_mul_base, clear_cofactor, mul_by_cofactor_to_group on program registers; outputs of decode and "
                 "hash-to-group. None is trivial." + DISTINCT,
+        "rule_more": "plus stuck-then-release RNG streams, container deserialisation (Vec / array / tuple / Option), batches with related Z "
+                     "coordinates (product 1, sum 0, equal, +-1), long batches (to 5000; thorough 16385), outputs of every decoding entry "
+                     "point on the hostile decoder strings.",
         "text": "Invariant monitor: every element handed out by a public constructor must round-trip through its encoding and lie in "
                 "the group according to the model.",
         "note": "trusted: BigUint model scalar multiplication for the r*P test; minimal build exposes only constants, decode and Elligator.",
@@ -117,6 +133,8 @@ PROPS = {
         "rule": "r0 over the structured Fq zoo (0, +-1, 2^k, p-2^k, limb patterns, Montgomery artefacts, roots of unity of every "
                 "order 2^k, small ints) + random; each judged against elligatorSpec(r0), map(r0) == map(-r0), output in 2E (sampled); "
                 "both branches (n1 square / non-square) must be reached; two-input hash against map(a)+map(b) incl. a=b, a=-b. "
+                "Elligator collisions: all preimages of sampled images by model-side inversion of the map; pairs with equal "
+                "image (expect 2P) and opposite image (expect identity). "
                 "Trivial: r0 = 0." + DISTINCT,
         "text": "Reference-model monitor against an independent transcription of the specification's unoptimised map.",
         "note": "trusted: BigUint elligatorSpec (self-tested on the 8 sage vectors). den = 0 in the spec would be logged as "
@@ -133,6 +151,9 @@ PROPS = {
                 "Q+(-1)Q, Q-Q, 0*Q, r*Q, decode(0)}; all ordered pairs: == <=> equal encodings <=> model equal, equal => equal "
                 "hashes (Element and AffinePoint); every identity predicate must be all-true on the identity family and all-false "
                 "elsewhere; same on program registers. No case is trivial." + DISTINCT,
+        "rule_more": "plus != against ==, hashes of containers ([T], Vec, arrays, tuples, Option), coordinates engineered to have "
+                     "fold-symmetric / all-ones / zero Montgomery limbs, object-lifecycle programs (==, Hash, identity predicates over "
+                     "all register pairs after in-place mutation).",
         "text": "Coherence monitor over pairs that compare equal but have different internal representatives.",
         "note": "only `equal => equal hash` is demanded; hash values are never compared with anything fixed. Minimal build: == / "
                 "is_identity part (it has no Hash / Zero).",
@@ -147,6 +168,8 @@ PROPS = {
                 "operands, zoo pairs and random pairs; (num,den) = (ratio*den, den) and (1, 1/ratio). Flag must equal Euler(num/den), "
                 "y^2*den must equal num resp. zeta*num; window coverage (measured model-side by a discrete log of what was actually "
                 "presented) must be complete or the run is inconclusive. Field::sqrt/legendre of Fq, Fr, Fp against Euler. "
+                "sqrt_in_place: root on Some, receiver unchanged on None. Zoo incl. values sharing limbs with p, fold-symmetric "
+                "limb patterns; extra feature configurations (parallel with a 3-thread pool, minimal+std) in both tiers. "
                 "Trivial: num = den = 0." + DISTINCT,
         "text": "Contract monitor whose inputs are engineered to hit every lookup-table row of the table-driven square root; the "
                 "minimal build's constant-time Tonelli-Shanks gets the same inputs.",
@@ -170,6 +193,9 @@ PROPS = {
                 "a seeded strided sample (about 250k pairs per field, thorough 4M) of zoo x zoo pairs (0,1,2,p-1,p-2,(p+-1)/2, every 2^k, 2^k-1, p-2^k, limb "
                 "patterns, R, R^2, R^-1, roots of unity, values sharing limbs with p, recoding runs, decimal structure), random pairs. Division by zero panicking is documented behaviour and only "
                 "counted. Trivial: all operands in {0,1}." + DISTINCT,
+        "rule_more": "zoo additions: divstep worst-case inputs (beam search: ~2.4*bits iterations), Montgomery extremes, limb-fold symmetric "
+                     "values, recoding runs, decimal structure, modulus-limb sharing; resumable (non-fused) iterators; fold lists of "
+                     "length 31..1025 with extreme contents; from_base_prime_field_elems arity.",
         "text": "Reference-model monitor over the complete form catalogue; results are compared as canonical bytes.",
         "note": "trusted: num-bigint. Fq::SENTINEL and non-canonical from_montgomery_limbs inputs are outside the quantifier.",
     },
@@ -183,6 +209,8 @@ PROPS = {
                 "accept exactly integers < p; reducers (from_le/be_bytes_mod_order, From<BigUint>, from_random_bytes) must equal the "
                 "integer mod p for every length; flags EmptyFlags/TEFlags/SWFlags round-trip value and flags; Ord = integer order on "
                 "pairs differing in one limb; Hash consistent with ==; From<u8..u128,bool>; FromStr/Display; samplers in range. "
+                "Non-standard flag types (4, 8 bits: extra byte; 9 bits: refused); strings beyond 2048 bits, sparse long strings "
+                "with zero / k*p chunks, fold-collision aliases, fold-vanishing pairs for == / Ord / Hash. "
                 "Trivial: values 0/1, the empty string." + DISTINCT,
         "text": "Integer-model monitor over all conversions; the minimal build covers the inherent subset on the fiat backend.",
         "note": "FromStr is specified as digits -> integer mod p, anything else Err (ark-ff behaviour); Display of zero may be empty.",
@@ -201,6 +229,8 @@ PROPS = {
                 "encode_to_curve, hash_to_curve, sqrt_ratio (as flag and y^2); group programs over the 12 shared binary forms, neg, "
                 "double, 10 shared scalar forms and long-integer multiplication, each step logged as result encoding + identity/equality "
                 "bits. evaluations = lines compared; distinct_nontrivial = distinct transcript lines (measured by hashing) of one build.",
+        "rule_more": "structured sections: all core-zoo pairs and Montgomery limb neighbours with cmp/eq/ne/hash lines, engineered square-root "
+                     "exponents, Elligator collisions, divstep worst-case inversions; the arkx / minx configurations are compared with ark too.",
         "text": "Differential trace check between the two feature configurations over every operation both offer.",
         "note": "sqrt_ratio is logged as (was_square, y^2): the sign of y is not an observable both builds define under one name.",
     },
@@ -216,6 +246,8 @@ PROPS = {
                 "Lazy histories: all 781 sequences of length <= 4 over {compress_to_field, value, cs, clone+compress, clone+value} from "
                 "both start states on several elements: constraints may grow only at the first forcing of a missing form, values stay "
                 "equal to native, clone-free histories forcing the same forms end in identical matrices. No case is trivial." + DISTINCT,
+        "rule_more": "scalar_mul_le with constant / witness bits mixed (head, tail, interleaved) and constant base points; near-valid rejects and "
+                     "special field values as encodings; arkx configuration in both tiers.",
         "text": "Consistency monitor between circuit and native code; value() is read only on satisfied systems.",
         "note": "the native functions are themselves monitored by C01-C09; hints are honest here (adversarial hints: C14).",
         "timeout": {"quick": 1500, "thorough": 14400},
@@ -236,6 +268,9 @@ PROPS = {
                 "tamper engine: for every catalogue gadget (scalar_mul_le in thorough) and input, every non-derivable witness: boolean "
                 "flip, runs of >= 200 bit hints replaced by the bits of v+p and v-p and single flips, field hints replaced by -v, 0, 1, "
                 "v+1, zeta*v, random (about 30k tampered assignments in quick). A case = (gadget, input, call index or hint, alternative)." + DISTINCT,
+        "rule_more": "(d) hostile programs with an honest prover: an invalid lazily decoded encoding (witness or input) among valid registers of "
+                     "every allocation mode and 0..4 padding witnesses, forced by negate / add / is_eq / enforce_equal, must be unsatisfiable; "
+                     "off-curve multiples (lx, ly) of valid coordinates.",
         "text": "Fault enumeration of malicious prover hints at the two hooked sites. Known finding (not repaired, see known_findings.json): "
                 "isqrt accepts (true, +-1) when den = 0.",
         "note": "(a) is complete over satisfying isqrt hints for the explored inputs; (c) explores single-hint discrete alternatives (and "
@@ -254,6 +289,8 @@ PROPS = {
                 "circuits re-stated from tests/groth16_gadgets.rs on hostile witnesses (scalars 0, r-1, r, 2^256-1; identity, (0,-1), "
                 "both coset members; r0 = 0, +-1): shapes, validated key deserialisation, query lengths vs matrices, honest proofs "
                 "verify, each proof rejected for >= 5 wrong public inputs. No case is trivial." + DISTINCT,
+        "rule_more": "blank setup (every allocation answers AssignmentMissing): refusal counted, a produced system must equal the proving-mode "
+                     "system; CountConstraints on the seven circuits; identity representatives through both public-input paths.",
         "text": "Shape/transcript monitor; digests are only compared within a run, the pinned keys are the only stored reference.",
         "note": "proofs are randomised, only accept/reject bits are compared; trusted: ark-groth16.",
         "timeout": {"quick": 1500, "thorough": 14400},
@@ -269,6 +306,8 @@ PROPS = {
                 "pairings e(aG1,bG2) incl. a=-b, small a: output bytes, bilinearity, miller_loop bytes, final_exponentiation, "
                 "multi_pairing; random Fp12 elements: frobenius_map(0..11) of Fp12/Fp6/Fp2 components, mul, square, inverse, pow, "
                 "Fp2 sqrt/legendre. Trivial: zero scalars." + DISTINCT,
+        "rule_more": "readers with partial progress; integer-zoo mul_bigint (q+-2, prefixes c*q+delta, recoding runs, long); hostile points "
+                     "related to a just-validated point, with a vanishing coordinate component; multi-pairing lists with identities.",
         "text": "Differential monitor against the object the property names (the reference engine is already a dependency of /repo).",
         "note": "trusted: ark-bls12-377 / ark-ec generic code.",
     },
